@@ -195,6 +195,10 @@ def store3(pid, k, outroot="/tmp"):
   for fn in ("patch.diff", "demo.py", "notes.md"):
     if os.path.exists(os.path.join(src, fn)):
       shutil.copy(os.path.join(src, fn), os.path.join(dst, fn))
+  adapted = None
+  if os.path.exists(os.path.join(src, "patch.orig.diff")):
+    shutil.copy(os.path.join(src, "patch.orig.diff"), os.path.join(dst, "patch.as_written.diff"))
+    adapted = "patch re-based onto a later fix: commit of /repo (patch.as_written.diff is the sub-agent's original)"
   ver = json.load(open(os.path.join(src, "verify.json")))
   needs = "see notes.md"
   try:
@@ -217,7 +221,7 @@ def store3(pid, k, outroot="/tmp"):
       "detected_by": {"check": d["check"] if d else pid, "tier": d["tier"] if d else "MISSED",
                       "first_violation": d["first"][:400] if d else "", "seconds": d["secs"] if d else None},
       "runs": [{"check": r["check"], "tier": r["tier"], "detected": r["detected"], "seconds": r["secs"]} for r in runs],
-      "adapted": None,
+      "adapted": adapted,
   }
   json.dump(meta, open(os.path.join(dst, "meta.json"), "w"), indent=1)
   summary()
